@@ -138,6 +138,7 @@ class Version:
 
 def fleet_cfg(**kw):
     base = dict(max_ns=2, max_types=6, routes=True, annotations=False, custom_annotations=False,
-                examples=False, patches=False, stone_cfg=False, docs=False, min_one_tag=True, nullable_aliases=False)
+                examples=False, patches=False, stone_cfg=False, docs=False, min_one_tag=True, nullable_aliases=True, nullable_alias_pct=30, alias_ref_pct=35,
+                deep_inherit_pct=60, uchild_weight=16)
     base.update(kw)
     return specgen.Cfg(**base)
